@@ -175,6 +175,7 @@ class C01(Property):
             s = gen_table[idx]
             fr = o.get('frame')
             lines.append(f'dec {s["family"]} {s["dir"]} {wc.hexs(fr) if fr is not None else "-"} {o.get("infl", "!")}')
+            lines.append(f'dom {idx} {wc.show_message(vals)}')
         model = pinned_model = None
         if model_ok and table is not None:
             model = common.run_driver(self.driver_file, lines)
@@ -211,16 +212,19 @@ class C01(Property):
                                                 case, observed=o.get('code'), required=ps['id']))
             if model is not None:
                 res.traces_validated += 1
-                me, md = model[2 * k], model[2 * k + 1]
+                me, md = model[3 * k], model[3 * k + 1]
                 if me != o['enc']:
                     res.disagreements.append(Disagreement(case, o['enc'][:200], me[:200], 'encode'))
                 if md != o['dec']:
                     res.disagreements.append(Disagreement(case, o['dec'][:200], md[:200], 'decode'))
+                if model[3 * k + 2] != 'dom 1':
+                    res.disagreements.append(Disagreement(case, 'generated as in-domain', model[3 * k + 2],
+                                                          'domain: generator value outside the theorems\' inDomain'))
             oracle = pinned_model if pinned_model is not None else (model if same_layout else None)
-            if oracle is not None and oracle[2 * k] != o['enc'] and oracle[2 * k].startswith('ok'):
+            if oracle is not None and oracle[3 * k] != o['enc'] and oracle[3 * k].startswith('ok'):
                 res.violations.append(Violation(
                     'C01-layout', f'{case["class"]}: bytes differ from the pinned layout', case,
-                    observed=o['enc'][:300], required=oracle[2 * k][:300]))
+                    observed=o['enc'][:300], required=oracle[3 * k][:300]))
             if len(res.samples) < 3 and 20 < len(txt) < 120:
                 res.samples.append({'case': case, 'impl_bytes': o['enc'][:120]})
         # obfuscation
